@@ -558,6 +558,11 @@ func (e *Engine) callMods(fr *Frame, fn *ssa.Function, x ssa.CallInstruction, de
 				for _, n := range ms {
 					addAll(n)
 				}
+				for _, a := range cc.Args {
+					if mc, ok := a.(*ssa.MakeClosure); ok {
+						fr.modsOf(mc.Fn.(*ssa.Function), nil, depth+1, mods, false)
+					}
+				}
 				return
 			}
 		}
